@@ -263,6 +263,10 @@ fn oracle(c: &Case, ctx: &mut Ctx) -> CaseResult {
 					if view == "harness-tip" {
 						return Err(Failure::new("harness-error", detail));
 					}
+					if view == "pursued-claims/claim-against-spent-output" && dev_tolerate("staleclaim") {
+						outcome_labels.push(format!("dev-tolerated:{}", view));
+						break;
+					}
 					if view == "pursued-claims/dropped-by-second" && dev_tolerate("claimdrop") {
 						outcome_labels.push(format!("dev-tolerated:{}", view));
 						break;
